@@ -45,7 +45,7 @@ def miri_programs(tier, seed):
     for i in take:
         progs.append((f"init-grid-{i}", nosb, ["mem", "--prog", "0", "--shard", f"{i}/{nshards}", "--seed", str(seed)]))
     for i in range(6 if tier == "thorough" else 2):
-        progs.append((f"history-{i}", nosb, ["mem", "--prog", "1", "--len", "150" if tier == "thorough" else "60", "--compare-every", "40",
+        progs.append((f"history-{i}", nosb, ["mem", "--prog", "1", "--len", "100" if tier == "thorough" else "60", "--compare-every", "40",
                                              "--seed", str(seed * 10 + i), "--max-evals", "2"]))
     progs.append(("invalid-buffers", nosb, ["mem", "--prog", "2", "--seed", str(seed), "--max-evals", "2"]))
     for i in range(4 if tier == "thorough" else 2):
@@ -64,7 +64,7 @@ def run_miri(name, flags, args, outdir):
     cmd = build._alt(["cargo", "+nightly", "miri", "run", "--offline", "--target-dir", os.path.join(build.BUILD, "t-miri"), "--"] + args + ["--out", out])
     t0 = time.time()
     try:
-        r = subprocess.run(cmd, cwd=build.HARNESS, env=env, stdout=subprocess.PIPE, stderr=subprocess.PIPE, timeout=1500)
+        r = subprocess.run(cmd, cwd=build.HARNESS, env=env, stdout=subprocess.PIPE, stderr=subprocess.PIPE, timeout=3000)
         rc, err = r.returncode, r.stderr.decode(errors="replace")
     except subprocess.TimeoutExpired:
         rc, err = "timeout", ""
